@@ -272,6 +272,7 @@ static void gen_c05(G &g, u64 base_seed) {
     const XorSet &xs = all[pos];
     g.cells.push(std::string("xor:") + std::to_string(pos) + ((g.index & 1) ? ":portable" : ":sse2"));
     Cfg c = xor_shape_index(xs.table); c.ct = g.world.chance(1, 2) ? 2 : 1;
+    if (g.world.chance(1, 4)) { static const int ws[] = {8, 16, 32, 4, 1, 7, -8, 64, 12, 2}; c.w = ws[g.world.below(10)]; }   // the backend has one word size: a caller's w must not matter
     // neighbours: other flat-XOR instances of other tables alive (or already gone) while the set is walked - an instance's
     // tables must be its own.  0: alone; 1: neighbour created after; 2: before; 3: after and destroyed again; 4: one before, one after
     int nb = (int) g.world.below(5);
@@ -434,6 +435,8 @@ static void gen_c09(G &g) {
 
 static void gen_c10(G &g) {
     static const char *envs[] = {nullptr, "", "0", "1", "yes", "00", "true", "01", " ", "no"};
+    static const char *long_envs[] = {"00000000", "0000000000000000", "legacy-crc-please", "false", "FALSE", "off", "disabled-by-operator-2024-01-01T00:00:00Z-ticket-1234567890",
+                                      "0 ", "-1", "1234567", "12345678", "123456789012345678901234567890123456789012345678901234567890123456789012345678901234567890123456789012345678901234567890123456789012345"};
     Cfg c = any_coded_shape(g.world, false, true); c.ct = 2;
     if (g.world.chance(1, 2)) { c = rs_shape(g.world, BE_RS); c.k = (int) g.world.range(1, 5); c.m = (int) g.world.range(1, 3); c.hd = c.m; c.ct = 2; }
     bool special_crc = g.world.chance(1, 16);
@@ -455,7 +458,7 @@ static void gen_c10(G &g) {
         int rounds = (int) g.plan.range(4, 12);
         for (int i = 0; i < rounds; i++) {
             Rng &r = g.faults;
-            if (r.chance(1, 4)) { Json ev = mk("ENV"); const char *e3 = envs[r.below(10)]; if (e3) ev.set("val", e3); g.ops.push(ev); }
+            if (r.chance(1, 4)) { Json ev = mk("ENV"); const char *e3 = r.chance(1, 4) ? long_envs[r.below(12)] : envs[r.below(10)]; if (e3) ev.set("val", e3); g.ops.push(ev); }
             unsigned x = (unsigned) r.below(10);
             int dev = (int) r.below(n);
             if (x < 7) {
@@ -586,7 +589,12 @@ static void gen_c20(G &g) {
         Json dl = delivery(g, S, n, r.chance(1, 2));
         for (int q = 0; q < nb && q < (int) sv.size(); q++) {
             Json fx; unsigned y = (unsigned) r.below(10);
-            if (y < 6) fx = payload_damage(g, 80 + 64);
+            if (y < 6) {
+                fx = payload_damage(g, 80 + 64);
+                // ... in a fragment stamped by an old writer (no metadata checksum then; the payload checksum is all it has), or sealed the historical way
+                if (r.chance(1, 5)) { static const u32 ov[] = {0x010000, 0x010009, 0x010101, 0x0101ff, 0x010100, 0x000001}; fx.push(fx_field("libver", ov[r.below(6)], (int) r.below(3))); }
+                else if (r.chance(1, 8)) fx.push(fx1("legacyseal"));
+            }
             else if (y < 8) { fx = Json::arr(); static const char *fl[] = {"idx", "beid", "bever"}; const char *f = fl[r.below(3)];
                 static const i64 bigidx[] = {0x7fffffffLL, 0x80000000LL, 0x80000001LL, 0xffffffffLL, 0xfffffffeLL, 255, 32, 33};
                 i64 v = !strcmp(f, "idx") ? (r.chance(1, 2) ? n + (i64) r.range(0, 3) : bigidx[r.below(8)]) : !strcmp(f, "beid") ? (c.be + 1 + (i64) r.below(5)) % 256 : 0x010001 + (i64) r.below(3);
@@ -606,7 +614,9 @@ static void gen_c20(G &g) {
             bool first_only = r.chance(1, 2);   // with duplicated delivery: the damaged copy comes first, a good one later
             for (auto &e : dl.a) if (e["dev"].in() == sv[q]) { e.set("fx", fx); e.erase("same"); if (first_only) break; }
         }
-        Json j = mk("GET"); j.set("obj", 0).set("slot", 0).set("force", r.chance(9, 10) ? 1 : 0).set("dl", dl);
+        // the flag is an int: any non-zero value asks for the checks
+        static const int forces[] = {1, 1, 1, 1, 1, 2, 0x100, -2, INT_MIN, 0x7fffffff, -1, 0x10000};
+        Json j = mk("GET"); j.set("obj", 0).set("slot", 0).set("force", r.chance(9, 10) ? forces[r.below(12)] : 0).set("dl", dl);
         g.ops.push(j);
     }
 }
